@@ -22,6 +22,7 @@ INVARIANT Inv_Conservation
 INVARIANT Inv_C06_Homogeneous
 INVARIANT Inv_C06_Linked
 INVARIANT Inv_C06_Exact
+INVARIANT Inv_C06_ExactHD
 INVARIANT Inv_C06_OnePrimary
 INVARIANT Inv_C06_Counts
 INVARIANT Inv_C06_Idempotent
